@@ -57,6 +57,7 @@ type builder struct {
 	declared       map[string]bool
 	assignsEmitted int
 	varAssigned    map[int]bool
+	knownFolds     int
 }
 
 // newBuilder matches arguments with parameters and decides, per parameter, between substitution and binding.
